@@ -72,6 +72,23 @@ CLAIMS.update({
          "rejected probabilities", NUM + "distrs::StudentsT::ppf as the quantile (accurate to ~1e-5)", "§6 C14"),
 })
 
+CLAIMS.update({
+ "C11": ("proof", "for every ordering of all cell writes of all column tasks the parallel Jacobian equals the sequential one (C11_schedule), writes "
+         "to distinct cells commute (C11_schedule_independent), failures give None under every order (C11_failure); the parallel set_params / "
+         "residuals are the same model functions; correspondence: problems built through the parallel constructors in rayon pools of "
+         "1/2/4/16 (thorough: 1..16) threads with injected yields vs the sequential problem, bit for bit, incl. whole fits and into_sequential",
+         TB + "rayon gives each column to exactly one task (Rust aliasing rules)", "§6 C11"),
+ "C05": ("other", "PARTIAL proof + model-evaluated exploration: proved that generating parameters give zero residual and the generating "
+         "coefficients, that J^T r = 0 implies stationarity of the original objective, that the optimizer never returns a worse objective and "
+         "returns a coherent optimal-coefficient state; convergence of the floating-point iteration itself is NOT proved — explored on the "
+         "certified families with calibrated thresholds",
+         NUM + "convergence claim explored, not proved", "§6 C05"),
+ "C08": ("other", "PARTIAL proof + exploration: proved protocol safety (non-finite matrices never decomposed, absent residuals end the fit, bounded "
+         "updates, no reachable panic in statistics / model builder / builder-made models, no uninitialised cells); termination and panic-freedom "
+         "of nalgebra's SVD/LU and the optimizer's QR on finite input are ASSUMED and explored with IEEE extremes under a watchdog in dev and "
+         "release builds", TB + "external numerics assumed to terminate on finite input", "§6 C08"),
+})
+
 NA = {
  "C19": "statement about the probability distribution of fit results; no measure/probability theory is installed for Coq 8.16 here and "
         "Monte-Carlo estimation is testing, not proof (DESIGN.md §6 C19)",
